@@ -461,6 +461,30 @@ Theorem C16_async_files : forall (R A : Type) (bytes : R -> list A) (c : cfg) (n
 Proof. exact compose_files. Qed.
 Print Assumptions C16_async_files.
 
+(* ------------------------------------------------------------------ several sinks in one process *)
+(* The models are per object.  A process with several sinks (two LogFiles, a LogFile next to an AsyncLogging,
+   two AsyncLoggings) is the PRODUCT of their models if the objects share no state; this is the obligation
+   read off the clang AST of the current sources: AppendFile, LogFile, AsyncLogging, FixedBuffer have no static
+   data member (static const constants excepted) and no member function refers to a variable declared outside
+   it other than a member of its own object (stderr/stdout/errno excepted) *)
+Theorem C16_sinks_share_no_state : Sinks_share_no_state = true.
+Proof. exact eq_refl. Qed.
+Print Assumptions C16_sinks_share_no_state.
+
+(* the product theorem the obligation justifies, for any two models (LogFile, AsyncLogging front-end/back-end
+   steps, ...) and ANY interleaving of their operations: each sink's state - hence its files - is its own model
+   run on its own operations in their order, independent of what was done to the other sink; instantiated for
+   two LogFiles with different configurations and clocks.  N sinks: iterate (a product is a model) *)
+Theorem C16_sinks_independent :
+  (forall (S1 S2 O1 O2 : Type) (step1 : S1 -> O1 -> S1) (step2 : S2 -> O2 -> S2) (ops : list (O1 + O2)) (s : S1 * S2),
+     pair_run S1 S2 O1 O2 step1 step2 s ops =
+     (fold_left step1 (lefts O1 O2 ops) (fst s), fold_left step2 (rights O1 O2 ops) (snd s))) /\
+  (forall (A : Type) (c1 c2 : cfg) (now1 now2 : Z) (ops : list (sop_t A + sop_t A)),
+     let s := pair_run _ _ _ _ (lf_step c1) (lf_step c2) (lf_new now1, lf_new now2) ops in
+     fst s = lf_run c1 (lf_new now1) (lefts _ _ ops) /\ snd s = lf_run c2 (lf_new now2) (rights _ _ ops)).
+Proof. exact (conj pair_run_split two_logfiles_independent). Qed.
+Print Assumptions C16_sinks_independent.
+
 (* ------------------------------------------------------------------ the current tree *)
 (* the premises hold of the constants regenerated from the current sources (closed computations); of the two
    comparison operators only their agreement is required: changing both sites to `>=` is harmless *)
@@ -651,4 +675,12 @@ Qed.
 Example C16_logfile_destructor_nonvacuous :
   dirty (lf_run (default_cfg 1000) (lf_new 1000) [SAppend [1; 2; 3]%nat [] 1000 1000]) = 3 /\
   dirty (lf_run (default_cfg 1000) (lf_new 1000) [SAppend [1; 2; 3]%nat [] 1000 1000; SClose]) = 0.
+Proof. vm_compute. split; reflexivity. Qed.
+
+(* two LogFiles written alternately: each ends with exactly its own records *)
+Example C16_sinks_nonvacuous :
+  let s := pair_run _ _ _ _ (lf_step (default_cfg 1000)) (lf_step (default_cfg 1000)) (lf_new 1000, lf_new 1000)
+             [inl (SAppend [1]%nat [] 1000 1000); inr (SAppend [7; 8]%nat [] 1000 1000); inl (SAppend [2]%nat [] 1000 1000);
+              inr SFlush; inl SClose] in
+  files_in_order (fst s) = [(1000, [1; 2]%nat)] /\ files_in_order (snd s) = [(1000, [7; 8]%nat)].
 Proof. vm_compute. split; reflexivity. Qed.
